@@ -535,4 +535,99 @@ example : (withYXrepl 1 [7, 8, 9, 10] 1 2)[3]? = [7, 8, 9, 10][3]? :=
 example : (declared 1 [[2, 1], [1, 3], [2, 4]] 5 7 (regularTiling 5 2) (regularTiling 7 3)) =
     ⟨[3, 5, 7], [[2, 1], [2, 2, 1], [3, 3, 1]], [2, 3, 3]⟩ := by decide +kernel
 
+/-! ## nodata the dtype cannot hold: both back-ends refuse alike (fix3-C13); the int8 detour -/
+
+/-- inside the range the copy-back is the identity -/
+theorem wrapInt_id (r : IRange) (v : Int) (h : r.lo ≤ v ∧ v ≤ r.hi) : wrapInt r v = v := by
+  unfold wrapInt
+  rw [Int.emod_eq_of_lt (by omega) (by omega)]
+  omega
+
+private theorem rioCheck_mono (r wr : IRange) (hsub : wr.lo ≤ r.lo ∧ r.hi ≤ wr.hi) (v : Option RawNd)
+    (h : rioCheckInt r v = .ok ()) : rioCheckInt wr v = .ok () := by
+  rcases v with _ | (_ | q)
+  · rfl
+  · simp [rioCheckInt] at h
+  · obtain ⟨h1, h2⟩ := rioCheck_num r q h
+    simp only [rioCheckInt]
+    rw [if_pos]
+    have e1 : (wr.lo : Rat) ≤ (r.lo : Rat) := by exact_mod_cast hsub.1
+    have e2 : (r.hi : Rat) ≤ (wr.hi : Rat) := by exact_mod_cast hsub.2
+    exact ⟨by linarith, by linarith⟩
+
+private theorem warpInit_in_range (r : IRange) (h0 : r.lo ≤ 0 ∧ 0 ≤ r.hi) (d s : Option RawNd)
+    (hs : rioCheckInt r s = .ok ()) (hd : rioCheckInt r d = .ok ()) :
+    r.lo ≤ warpInitInt d s ∧ warpInitInt d s ≤ r.hi := by
+  rcases d with _ | (_ | qd)
+  · rcases s with _ | (_ | qs)
+    · exact h0
+    · exact h0
+    · obtain ⟨h1, h2⟩ := rioCheck_num r qs hs
+      exact roundHAZ_in_range r.lo r.hi qs h1 h2
+  · exact h0
+  · obtain ⟨h1, h2⟩ := rioCheck_num r qd hd
+    exact roundHAZ_in_range r.lo r.hi qd h1 h2
+
+/-- **`xr_reproject` treats a nodata the integer type cannot hold the same on both back-ends** (fix3-C13): for every
+nodata attribute / `src_nodata=` / `dst_nodata=` (in range, out of range, fractional, NaN), every integer type `r` and
+every working type `wr ⊇ r` GDAL warps it in (int8 → int16), the value of an unreached pixel in a constant dask chunk
+and in the numpy-backed result are the same `Except` value: the same fill, or the same `ValueError` -/
+theorem xr_fill_agree (r wr : IRange) (hsub : wr.lo ≤ r.lo ∧ r.hi ≤ wr.hi) (h0 : r.lo ≤ 0 ∧ 0 ≤ r.hi)
+    (a k d : Option RawNd) : xrFillDask true r a k d = xrFillWhole true r wr a k d := by
+  unfold xrFillDask xrFillWhole
+  generalize xrNodataRaw a k d = nd
+  simp only []
+  cases hchk : xrEntryCheck true r nd.1 nd.2 with
+  | error e => rfl
+  | ok u =>
+    have hs : rioCheckInt r nd.1 = .ok () := by
+      simp only [xrEntryCheck] at hchk
+      cases h : rioCheckInt r nd.1 with
+      | error e => rw [h] at hchk; cases hchk
+      | ok u' => rfl
+    have hd : rioCheckInt r nd.2 = .ok () := by
+      simp only [xrEntryCheck, hs] at hchk
+      exact hchk
+    have hin := warpInit_in_range r h0 nd.2 nd.1 hs hd
+    have hwr : wholeFillInt wr nd.2 nd.1 = .ok (warpInitInt nd.2 nd.1) := by
+      simp only [wholeFillInt, rioCheck_mono r wr hsub _ hs, rioCheck_mono r wr hsub _ hd]
+    have hr : wholeFillInt r nd.2 nd.1 = .ok (warpInitInt nd.2 nd.1) := by
+      simp only [wholeFillInt, hs, hd]
+    simp only [wholeFillWork, hwr, Except.map, wrapInt_id r _ hin]
+    exact const_fill_eq_warp_fill r nd.2 nd.1 _ hr
+
+/-- **as found** (before fix3-C13): an int8 raster with `nodata = -200`: the numpy-backed call wraps it through int16
+to 56, the dask-backed call raises `OverflowError` (replayed: oracle key `unrepresentable-nodata-one-path-refuses`) -/
+theorem int8_wrap_as_found_cex :
+    xrFillWhole false ⟨-128, 127⟩ ⟨-32768, 32767⟩ (some (.num (-200))) none none = .ok 56 ∧
+      xrFillDask false ⟨-128, 127⟩ (some (.num (-200))) none none = .error .overflow := by
+  constructor <;> decide +kernel
+
+/-- as found, disjoint rasters: uint8 with `nodata = -9999` and an explicit `dst_nodata = 0`: constant chunks answer 0,
+the in-memory path refuses -/
+theorem unrepresentable_as_found_cex :
+    xrFillDask false ⟨0, 255⟩ (some (.num (-9999))) none (some (.num 0)) = .ok 0 ∧
+      xrFillWhole false ⟨0, 255⟩ ⟨0, 255⟩ (some (.num (-9999))) none (some (.num 0)) = .error .value := by
+  constructor <;> decide +kernel
+
+example : xrFillDask true ⟨-128, 127⟩ (some (.num (-200))) none none = .error .value ∧
+    xrFillWhole true ⟨-128, 127⟩ ⟨-32768, 32767⟩ (some (.num (-200))) none none = .error .value := by
+  constructor <;> decide +kernel
+
+example : xrFillDask true ⟨-128, 127⟩ (some (.num (5 / 2))) none none = .ok 3 := by decide +kernel
+
+/-- the float conversion is odd: negative nodata round like positive ones -/
+theorem roundFloat_neg (p : Nat) (q : Rat) : roundFloat p (-q) = -(roundFloat p q) := by
+  unfold roundFloat
+  by_cases h0 : q = 0
+  · simp [h0]
+  · by_cases hp : 0 < q
+    · have hn : ¬ (0 < -q) := by linarith
+      have hne : -q ≠ 0 := by simpa using h0
+      simp [hne, hn, h0, hp]
+    · have hlt : q < 0 := lt_of_le_of_ne (not_lt.1 hp) h0
+      have hn : 0 < -q := by linarith
+      have hne : -q ≠ 0 := by simpa using h0
+      simp [hne, hn, h0, hp]
+
 end OdcGeo.C13
